@@ -185,14 +185,15 @@ def r4(chk, prog, m):
     P = Paths(f, prog)
     cfg = cfg_of(f)
     p1, p2 = f.params[0][1], f.params[1][1]
-    looks = [i for i in f.instrs() if i.op == "call" and i.callee == "lh_table_lookup_ex"]
+    PRESENCE = ("lh_table_lookup_ex", "json_object_object_get_ex", "lh_table_lookup_entry", "lh_table_lookup_entry_w_hash")
+    looks = [i for i in f.instrs() if i.op == "call" and i.callee in PRESENCE]
+    blind = [i for i in f.instrs() if i.op == "call" and i.callee in ("json_object_object_get",)]
     dirs = set()
     for l in looks:
         tp = P.path(l.ops[0])
-        kp = P.path(l.ops[1])
         dirs.add(("in " + (p1 if tp.startswith(p1) else p2 if tp.startswith(p2) else "?")))
-        # a miss returns 0
     eqs = [i for i in f.instrs() if i.op == "call" and i.callee == "json_object_equal"]
+    lens = [i for i in f.instrs() if i.op == "call" and i.callee in ("json_object_object_length", "lh_table_length")]
     from .c20 import _returns_only
     miss_ok = True
     for c in looks + eqs:
@@ -206,11 +207,20 @@ def r4(chk, prog, m):
                             if _returns_only(f, f.blocks[tname], lambda v: v.kind == "int" and v.v == 0):
                                 ok = True
         miss_ok = miss_ok and ok
-    if dirs == {"in " + p1, "in " + p2} and len(eqs) >= 1 and miss_ok:
-        chk.proven(rid, f.name, "both directions", looks[0].locstr(), "lookups in both objects, recursive comparison, miss/inequality => 0")
+    both = dirs == {"in " + p1, "in " + p2}
+    counted = len(lens) >= 2 and len(dirs - {"in ?"}) >= 1
+    if blind:
+        chk.refuted(rid, f.name, "both directions", blind[0].locstr(),
+                    "members are looked up with %s, which returns NULL both for a missing key and for a key holding JSON null: an object with a "
+                    "null member compares equal to one that lacks the key" % blind[0].callee)
+    elif (both or counted) and len(eqs) >= 1 and miss_ok:
+        chk.proven(rid, f.name, "both directions", looks[0].locstr(),
+                   ("lookups in both objects" if both else "equal member counts and a presence-aware lookup of every member") +
+                   ", recursive comparison, miss/inequality => 0")
     else:
         chk.refuted(rid, f.name, "both directions", f.entry.term.locstr(),
-                    "object equality does not look members up in both directions with a 0 result on a miss (directions %s, comparisons %d)" % (sorted(dirs), len(eqs)))
+                    "object equality does not cover both key sets (directions %s, member-count comparisons %d, value comparisons %d, "
+                    "miss => 0: %s)" % (sorted(dirs), len(lens), len(eqs), miss_ok))
     g = m.functions.get("json_array_equal")
     chk.require(g is not None and not g.is_decl, "json_array_equal not found")
     chk.touched(g)
